@@ -50,6 +50,9 @@ var boundedSpecs = []boundedSpec{
 	{prop: "C17", name: "C17#bounded#registration-sequences", harness: "c17_bounded_test.go.txt", pkgDir: "", run: "TestGvcBoundedC17$",
 		statement: "for every sequence of Register / Before(x).Register / After(x).Register / Before(x).After(y).Register / Replace / Remove up to the bound over 4 built-in names, 2 new names and 1 unknown name: an error is returned, or every registered non-removed callback runs exactly once, on the requested side of the callback it names, built-ins keep their relative order, Replace keeps the position",
 		quick: "2", thorough: "3"},
+	{prop: "C11", name: "C11#bounded#identity-key-injective", harness: "c11_bounded_test.go.txt", pkgDir: "utils", run: "TestGvcBoundedC11$",
+		statement: "for all tuples of arity 1..bound over key parts {\"\", a, b, _, a_b, b_, _a, nil(text), \\, a\\, \\_, 1, 2, 12, nil, uint 1, []byte a_, \"1\", \"1_2\"}: different tuples (parts compared by their text, nil apart) get different identity keys from the real ToStringKey",
+		quick: "2", thorough: "3"},
 	{prop: "C02", name: "C02#bounded#raw-condition-grouping", harness: "c02_bounded_test.go.txt", pkgDir: "clause", run: "TestGvcBoundedC02$",
 		statement: "for every raw condition built from atoms p,q joined by AND/OR in mixed case with space/tab/newline delimiters (up to the bound), used as a Where/Or/Not unit, inside a group, and under Not together with a map-style Eq condition: the text rendered by the real Build methods, evaluated with SQL precedence, equals the intended left-to-right combination of indivisible units for all 16 truth assignments",
 		quick: "2", thorough: "3"},
